@@ -81,4 +81,20 @@ def clashCount (c : Rat) (s : List Atom) : Nat :=
 /-- the clash count of the property: 3 Å -/
 def clashes (s : List Atom) : Nat := clashCount 3 s
 
+/-! ### the domain of the property: "reference/decoy pairs of two-chain complexes" with consistent residue naming -/
+
+/-- `s` is a two-chain complex with chains `c₁ < c₂` -/
+structure IsTwoChain (s : List Atom) (c₁ c₂ : Str) : Prop where
+  lt : c₁ < c₂
+  only : ∀ a ∈ s, a.chainID = c₁ ∨ a.chainID = c₂
+  first : ∃ a ∈ s, a.chainID = c₁
+  second : ∃ a ∈ s, a.chainID = c₂
+
+/-- a residue (chain, number) carries one residue name throughout `s` (for a reference/decoy pair: `s = ref ++ dec`,
+    "the decoy and the reference have consistent residue numbering") -/
+def NamesConsistent (s : List Atom) : Prop :=
+  ∀ a ∈ s, ∀ b ∈ s, resOf a = resOf b → a.resName = b.resName
+
+instance (s : List Atom) : Decidable (NamesConsistent s) := by unfold NamesConsistent; infer_instance
+
 end Spec.C08
